@@ -12,7 +12,8 @@ RULE = ('cases = (a) values of every type the extended JSON claims (decimals, da
         'any UTC offset, durations, nested arrays/objects, unicode) through ejson.dumps/loads, (b) packages streamed to a '
         'file and read back, (c) run/delete histories of flows with one or two chained checkpoints, with a fresh Flow '
         'object per run or one object re-used; non-trivial = a non-JSON-native value / a history with a resume or a '
-        'delete; distinct = distinct case digest')
+        'delete; distinct = distinct case digest'
+        '; round 4: the stream file\'s text is split and joined by the model and compared with the real file and readline()')
 TRUSTED = ['Coq 8.16.1 kernel + vm_compute', 'harness/p07.py printers and oracle',
            'Python scalar text codecs (str(Decimal)/Decimal(str), strftime/strptime, isodate) satisfy parse(print x) = x: hypotheses of C07_ejson_roundtrip, exercised by the unit stream',
            'sources are re-iterable (a one-shot generator source is outside the domain)']
@@ -155,7 +156,17 @@ def run_impl(case):
             lines = open(f).read().split('\n')
             ds = Flow(DF.unstream(f)).datastream()
             got = [list(r) for r in ds.res_iter]
-        return {'rows': [rows_enc(x) for x in got], 'names': [r['name'] for r in ds.dp.descriptor.get('resources', [])],
+        # the file as text, and the lines readline() hands to the reader (text mode, as unstream opens it)
+        raw = open(f, 'rb').read().decode('utf-8')
+        with open(f) as fh:
+            rl = []
+            while True:
+                l = fh.readline()
+                if not l:
+                    break
+                rl.append(l)
+        text = {'text': raw, 'readlines': rl} if len(raw) <= 2500 else {}
+        return {'rows': [rows_enc(x) for x in got], 'names': [r['name'] for r in ds.dp.descriptor.get('resources', [])], **text,
                 'blank': [len(l.strip()) == 0 for l in lines[:-1]] if lines and lines[-1] == '' else [len(l.strip()) == 0 for l in lines]}
     d = os.path.join(scratch(), 'h_%s' % digest(case))
     shutil.rmtree(d, ignore_errors=True)
@@ -284,8 +295,13 @@ def coq_term(case, out):
         return t
     if k == 'stream':
         shape = clist([clist(['tt'] * len(r)) for r in case['pkg']])
-        return ('list_eqb Bool.eqb (map (fun l => match l with [] => true | _ => false end) '
-                '(stream_lines unit unit (fun _ => [1]) (fun _ => [1]) (tt, %s))) %s') % (shape, clist([cbool(b) for b in out['blank']]))
+        t = ('list_eqb Bool.eqb (map (fun l => match l with [] => true | _ => false end) '
+             '(stream_lines unit unit (fun _ => [1]) (fun _ => [1]) (tt, %s))) %s') % (shape, clist([cbool(b) for b in out['blank']]))
+        if 'text' in out and all(l.endswith('\n') for l in out['readlines']):
+            # the model's line splitting and joining against the real file and the real readline()
+            ls = clist([cstr(l[:-1]) for l in out['readlines']])
+            t += ' && list_eqb str_eqb (split_lines %s) %s && str_eqb (file_text %s) %s' % (cstr(out['text']), ls, ls, cstr(out['text']))
+        return t
     if k == 'history' and not case['two'] and all('error' not in r for r in out['runs']):
         h = clist(['HRun' if o == 'run' else 'HDelete' for o in case['history']])
         obs = clist([cbool('up' in r['log']) for r in out['runs']])
